@@ -31,7 +31,12 @@ Wide == {Obj({[k |-> ks[1], v |-> Num("pos")], [k |-> ks[2], v |-> Str(<<"A">>)]
         \cup {Arr(<<x, y, z>>) : x \in {Num("zero"), Str(<<"Q">>)}, y \in {Null, Arr(<< >>)}, z \in {Num("i64max"), Obj({})}}
 DeepOf(x) == Arr(<<Obj({[k |-> <<"A">>, v |-> Arr(<<Obj({[k |-> <<"U">>, v |-> x]})>>)]})>>)
 Deeper == {DeepOf(x) : x \in {Num("u64max"), Num("frac"), Num("exp"), Str(<<"N">>), Arr(<< >>), Obj({}), Bool(FALSE)}}
-Values == Scalars \cup Arrs1 \cup Objs1 \cup Nested \cup Wide \cup Deeper
+\* towers: a scalar (or an empty container) 63 .. 126 containers down - around the depths at which writers and
+\* parsers commonly draw a line (64, 100, 128)
+TowerNames == [n : {63, 64, 65, 66, 100, 126}, sh : {"arr", "obj", "mix"},
+               x : {Num("pos"), Num("frac"), Str(<<"Q">>), Arr(<< >>), Null}]
+Towers == {Tower(tw.n, tw.sh, tw.x) : tw \in TowerNames}
+Values == Scalars \cup Arrs1 \cup Objs1 \cup Nested \cup Wide \cup Deeper \cup Towers
 
 \* a canonical writer that is free in exactly what C10 leaves free (member order is
 \* fixed by code points of the concrete keys, which the abstract level does not see)
@@ -81,6 +86,9 @@ VJ(x) ==
     [] x.t = "obj" -> [t |-> "obj", o |-> SetToSeq({[k |-> m.k, v |-> VJ(m.v)] : m \in x.o})]
     [] OTHER -> x
 
+NameOf(x) == IF x \in Towers THEN LET tw == CHOOSE w \in TowerNames : Tower(w.n, w.sh, w.x) = x
+                                   IN [t |-> "tower", n |-> tw.n, sh |-> tw.sh, x |-> VJ(tw.x)]
+             ELSE VJ(x)
 Emit ==
-  Done => PrintT(<<"SCN", ToJson([m |-> "C10", v |-> VJ(v), out |-> res, allow |-> SetToSeq(AllowedRes(v))])>>)
+  Done => PrintT(<<"SCN", ToJson([m |-> "C10", v |-> NameOf(v), out |-> res, allow |-> SetToSeq(AllowedRes(v))])>>)
 =============================================================================
